@@ -5,6 +5,9 @@ import ParryModel.C19.Theorems3
 import ParryModel.C19.Theorems4
 import ParryModel.C19.Theorems5
 import ParryModel.C19.Theorems6
+import ParryModel.C19.Theorems7
+import ParryModel.C19.Theorems8
+import ParryModel.C19.Theorems9
 /-!
 # C19 theorems: `scaled` is exact — the scaled shape contains `s∘p` exactly when the original contains `p`,
 for every non-degenerate scale vector of any sign.
